@@ -81,7 +81,8 @@ Theorem C08_nil_validator_refuted :
   exec_block with_nilval 7 [{| dt_proof := PfValidatorNil; dt_sig_ok := true; dt_body := BIbtp BOk; dt_fee_ok := true |}] = Crash.
 Proof. exact nil_validator_refuted. Qed.
 
-Theorem C08_nil_address_refuted : exec_block with_niladdr 7 [plain BNilAddress true] = Crash.
+Theorem C08_nil_address_refuted :
+  exec_block with_niladdr 7 [plain BNilTo true] = Crash /\ exec_block with_niladdr 7 [plain BNilFrom true] = Crash.
 Proof. exact nil_address_refuted. Qed.
 
 Theorem C08_evm_interchain_refuted :
